@@ -153,7 +153,134 @@ def solve_chain(fd):
     return flags
 
 
+# ---------------------------------------------------------------- the same facts by EXECUTION
+PYCLS = {v: k for k, v in CLS.items()}
+MESHARGS = {"G1": (3, 1.0), "C1": (3, 1.0), "S1": (3, 1.0), "G2": (3, 2, 1.0, 2.0), "C2": (3, 2, 1.0, 2.0), "P2": (3, 2, 1.0, 2.0),
+            "G3": (3, 2, 2, 1.0, 2.0, 3.0), "C3": (3, 2, 2, 1.0, 2.0, 3.0), "S3": (3, 2, 2, 1.0, 2.0, 3.0)}
+SIDEPAIRS = [("left", "right"), ("bottom", "top"), ("back", "front")]
+DISPATCHERS = [("diffusionTerm", "diffusion"), ("convectionTerm", "advection"), ("convectionUpwindTerm", "advection"),
+               ("convectionTVDupwindRHSTerm", "advection"), ("divergenceTerm", "calculus"),
+               ("boundaryConditionsTerm", "boundary"), ("cellValuesWithBoundaries", "boundary")]
+
+
+def exec_facts(repo):
+    """periodic -> ValueError table, solvePDE term classification flags, class -> builder (+ whether extra positional arguments
+    reach it), operator method lists: observed by running the library"""
+    sys.path.insert(0, os.path.join(repo, "src"))
+    try:
+        import numpy as np
+        import pyfvtool as pf
+        import importlib
+    except Exception as ex:
+        raise TranslateError(f"cannot import pyfvtool from {repo}/src: {type(ex).__name__}: {ex}")
+    import warnings
+    warnings.simplefilter("ignore")
+    meshes = {cq: getattr(pf, PYCLS[cq])(*MESHARGS[cq]) for cq in ORDER}
+    # 1. periodic flags
+    rad = {}
+    for cq in ORDER:
+        for ai, ax in enumerate(("AX", "AY", "AZ")):
+            outs = set()
+            for pattern in ((True, False), (False, True), (True, True)):
+                bc = pf.BoundaryConditions(meshes[cq])
+                for side, flag in zip(SIDEPAIRS[ai], pattern):
+                    if flag:
+                        getattr(bc, side).periodic = True
+                try:
+                    pf.boundaryConditionsTerm(bc); outs.add("ok")
+                except ValueError:
+                    outs.add("ValueError")
+                except Exception as ex:
+                    outs.add(type(ex).__name__)
+            if outs == {"ValueError"}:
+                rad[(cq, ax)] = True
+            elif outs == {"ok"}:
+                rad[(cq, ax)] = False
+            else:
+                raise TranslateError(f"{PYCLS[cq]}: periodic flags on axis {ax} give mixed outcomes {sorted(outs)}")
+    # 2. solvePDE term classification
+    m = meshes["G1"]
+    def solve_with(term):
+        phi = pf.CellVariable(m, 1.0)
+        good = pf.linearSourceTerm(pf.CellVariable(m, 1.0))
+        try:
+            pf.solvePDE(phi, [good, term]); return "Accept"
+        except TypeError:
+            return "TypeErr"
+        except ValueError:
+            return "ValueErr"
+        except AttributeError:
+            return "AttrErr"
+        except Exception as ex:
+            return type(ex).__name__
+    M = pf.linearSourceTerm(pf.CellVariable(m, 1.0)); v = pf.constantSourceTerm(pf.CellVariable(m, 1.0))
+    flags = {
+        "tuple_len_check": all(solve_with(t) == "TypeErr" for t in ((M,), (M, v, v), ())),
+        "tuple_ndim_check": all(solve_with(t) == "TypeErr" for t in ((v, M), (M, M), (v, v), (None, v), (M, None), ("a", 3.0))),
+        "ndim_guard": all(solve_with(t) == "TypeErr" for t in (None, "term", 3.0, object())),
+        "ndim1": solve_with(v) == "Accept",
+        "ndim2": solve_with(M) == "Accept" and solve_with((M, v)) == "Accept",
+        "else_typeerror": all(solve_with(t) == "TypeErr" for t in (np.zeros((2, 2, 2)), np.float64(1.0))),
+    }
+    # 3. dispatch tables
+    disp = {}
+    FL = pf.fluxLimiter("SUPERBEE")
+    for fname, modname in DISPATCHERS:
+        mod = importlib.import_module("pyfvtool." + modname)
+        fn = getattr(mod, fname)
+        modfile = mod.__file__
+        tab = {}
+        for cq in ORDER:
+            mesh = meshes[cq]
+            u = pf.FaceVariable(mesh, 1.0); phi = pf.CellVariable(mesh, 1.0); bc = pf.BoundaryConditions(mesh)
+            base = {"diffusionTerm": (u,), "convectionTerm": (u,), "convectionUpwindTerm": (u,), "convectionTVDupwindRHSTerm": (u, phi, FL),
+                    "divergenceTerm": (u,), "boundaryConditionsTerm": (bc,), "cellValuesWithBoundaries": (np.ones(tuple(int(k) for k in mesh.dims)), bc)}[fname]
+            extra = pf.FaceVariable(mesh, 1.0)
+            def run(args):
+                calls = []
+                def prof(frame, event, arg):
+                    if event == "call" and frame.f_code.co_filename == modfile:
+                        nm = frame.f_code.co_name
+                        if nm != fname and not nm.startswith("_") and not nm.startswith("<"):
+                            calls.append((nm, any(val is extra for val in frame.f_locals.values())
+                                          or any(isinstance(val, tuple) and any(x is extra for x in val) for val in frame.f_locals.values())))
+                sys.setprofile(prof)
+                try:
+                    fn(*args)
+                    err = None
+                except Exception as ex:
+                    err = ex
+                finally:
+                    sys.setprofile(None)
+                return calls, err
+            calls, err = run(base + (extra,))
+            star = bool(calls) and calls[0][1]
+            if not calls:
+                calls, err = run(base)
+            if not calls:
+                raise TranslateError(f"{fname}: no per-class builder was called for {PYCLS[cq]} ({type(err).__name__ if err else 'no error'})")
+            tab[cq] = (calls[0][0], star)
+        disp[fname] = tab
+    # 4. operator methods
+    def dunders(cls):
+        return [n for n, val in vars(cls).items() if n.startswith("__") and n.endswith("__") and callable(val)
+                and n not in ("__class__", "__init_subclass__", "__subclasshook__", "__class_getitem__")]
+    return rad, flags, disp, dunders(pf.CellVariable), dunders(pf.FaceVariable)
+
+
 def translate(repo):
+    ex_rad, ex_flags, ex_disp, ex_cell, ex_face = exec_facts(repo)
+    try:
+        return translate_ast(repo, (ex_rad, ex_flags, ex_disp, ex_cell, ex_face))
+    except TranslateError as e:
+        if "differ" in str(e):
+            raise
+        note = ("EXECUTION of the dispatchers / error branches on every grid class (the source text is not in the form the "
+                "reader of the text accepts: " + str(e)[:140].replace("*)", "* )") + ")")
+        return emit(ex_rad, ex_flags, ex_disp, ex_cell, ex_face, note)
+
+
+def translate_ast(repo, ex):
     def parse(f):
         return ast.parse(open(os.path.join(repo, "src/pyfvtool", f)).read())
     b = parse("boundary.py"); p = parse("pdesolver.py")
@@ -186,9 +313,24 @@ def translate(repo):
         return out
     cell_ops = dunders(parse("cell.py"), "CellVariable")
     face_ops = dunders(parse("face.py"), "FaceVariable")
+    ex_rad, ex_flags, ex_disp, ex_cell, ex_face = ex
+    if rad != ex_rad:
+        raise TranslateError("periodic/ValueError table read from the text and observed by execution differ")
+    if {k: bool(v) for k, v in flags.items()} != ex_flags:
+        raise TranslateError(f"solvePDE term-chain flags read from the text and observed by execution differ: {flags} vs {ex_flags}")
+    if {k: {c: tuple(v) for c, v in t.items()} for k, t in disp.items()} != ex_disp:
+        raise TranslateError("dispatch tables read from the text and observed by execution differ")
+    if set(cell_ops) - set(ex_cell) or set(face_ops) - set(ex_face):
+        raise TranslateError("operator methods read from the text and found on the classes differ")
+    return emit(rad, flags, disp, cell_ops, face_ops,
+                "the source text (AST), cross-checked by executing the dispatchers / error branches on every grid class")
+
+
+def emit(rad, flags, disp, cell_ops, face_ops, note):
     o = []
     w = o.append
-    w("(* GENERATED by tools/tr_dispatch.py from boundary.py, pdesolver.py, diffusion.py, advection.py, calculus.py. DO NOT EDIT. *)")
+    w("(* GENERATED by tools/tr_dispatch.py from boundary.py, pdesolver.py, diffusion.py, advection.py, calculus.py. DO NOT EDIT.")
+    w("   derived from " + note + " *)")
     w("From Coq Require Import String List Bool.\nFrom PFV Require Import Grid.\nImport ListNotations.\nOpen Scope string_scope.")
     w("Definition periodic_raises_valueerror (g : gclass) (a : axis) : bool :=\n  match g, a with")
     for (cq, ax), v in rad.items():
